@@ -788,3 +788,12 @@ for nm, har in [("insert", "insert_snapshot_taken"), ("insert_with_statistics", 
       assumed=["Tds::number_of_cells / number_of_vertices (stubs): any counts; ensure_spatial_index_seeded (stub: no-op)", "that the snapshot is restored on every Err of the closure is NOT decided"],
       obligations=["snapshot-exists-when-poststep"],
       claim=f"DelaunayTriangulation::{nm}: when the insertion starts, a rollback snapshot exists whenever a post-insertion step can run for it - however the decision is computed (robust to refactoring into helpers)")
+
+K("flip.local_postcondition", ["C04", "C08"], FLIPS, "flips_verify.rs", "local_postcondition_contract", "K-callee",
+  [fn(FLIPS, "verify_repair_postcondition_locally"), fn(FLIPS, "verify_repair_postcondition")], timeout=1500, ignore_dealloc_model=True,
+  assumed=["seed_repair_queues and the four verify_postcondition_* functions (stubs): any verdict, queues untouched - their bodies (predicates on real cells) are NOT verified; Tds::is_connected (stub): any answer"],
+  bounded="queues created empty by RepairQueues::new() (their drop loops unwound once, unwinding assertions on)",
+  obligations=["conjunction", "all-consulted"],
+  claim="verify_repair_postcondition_locally (the verdict behind is_valid / is_delaunay_via_flips and behind every repair's Ok): Ok <=> seeding, k=2, k=3, inverse k=2, inverse k=3 and connectivity all pass; every verifier consulted",
+  mutant=dict(file=FLIPS, old="    verify_postcondition_inverse_k2_edges(\n        tds,\n        kernel,\n        &mut queues.edge_queue,\n        &config,\n        &mut diagnostics,\n    )?;\n", new="",
+              desc="the inverse k=2 edge check dropped from the Delaunay verdict"))
